@@ -42,6 +42,17 @@ func runC04(c *Ctx) error {
 		c.count(fmt.Sprintf("%v%x", spec.Server, stream), true, "kind="+tag[:3], "end="+o.Kind, fmt.Sprintf("observed_kind=%d", obs.Kind))
 		return nil
 	}
+	// a message that never ends: every fragment within the limit, the sum far above it
+	for _, server := range []bool{true, false} {
+		for _, limit := range []int{300, 4096} {
+			for vi, stream := range unfinishedOversize(server, limit) {
+				spec := connSpec{Server: server, PMD: vi%2 == 0, RLimit: limit}
+				if err := run(spec, stream, fmt.Sprintf("unfinished server=%v limit=%d variant=%d", server, limit, vi)); err != nil {
+					return err
+				}
+			}
+		}
+	}
 	for i := 0; i < nbase; i++ {
 		spec := specs[i%len(specs)]
 		spec.RLimit = []int{70000, 300, 4096}[i%3]
